@@ -29,6 +29,11 @@ def run(tier: str) -> Check:
     check.rules = ["P1", "P2", "P3", "P4", "P5", "STREAM"]
     check.assumptions = ["the rule set is that of the standard Pratt loop; that it is complete for every token stream is not proved"]
     repo = Repo()
+    pratt_rules(check, repo)
+    return check
+
+
+def pratt_rules(check: Check, repo: Repo) -> None:
     fn = repo.func(REL, "PrattParser.parse_expr")
     construct = f"{REL}::PrattParser.parse_expr"
     tables = {"prefix": "PREFIX_OPS", "postfix": "POSTFIX_OPS", "infix": "INFIX_OPS"}
@@ -116,4 +121,3 @@ def run(tier: str) -> Check:
     ok = "self.pos +=" not in pk and "self.pos -=" not in pk and "self.pairs[self.pos]" in pk
     check.oblige("STREAM", f"{PAIRS_REL}::Stream.peek", "peek() returns pairs[pos] without advancing" if ok else "Stream.peek advances or does not return pairs[pos]", ok)
     check.floor("operator_branches", 3)
-    return check
